@@ -356,12 +356,17 @@ def _judge_announcements(report, backend, schedule, submitted, link):
     for ev, accepted in submitted:
         want[ev["id"]] = want.get(ev["id"], 0) + (1 if accepted else 0)
         kinds[ev["id"]] = ev["kind"]
+    miscounted = [i for i, w in want.items() if count.get(i, 0) != w]
     for i, w in want.items():
         n = count.get(i, 0)
         eph = 20000 <= kinds[i] < 30000
-        if n != w:
+        # one line per event for the first few, the rest of a long schedule in one line (each line carries the whole schedule)
+        if n != w and miscounted.index(i) < 3:
             report.property_failure("%s: an event (kind %d) accepted %d time(s) was announced to the other workers %d time(s) (%s)"
                                     % (backend, kinds[i], w, n, schedule), payload, None)
+        elif n != w and miscounted.index(i) == 3:
+            report.property_failure("%s: %d of the %d distinct events of the schedule were not announced to the other workers as often "
+                                    "as they were accepted (%s)" % (backend, len(miscounted), len(want), schedule), payload, None)
         for j, vis in link.announced:
             if j == i and not vis:
                 cls = None
@@ -407,9 +412,28 @@ def announce_case_sql(report, drv, rng, tag, evs=None):
         shutil.rmtree(d, ignore_errors=True)
 
 
-def announce_case_kv(report, drv, rng, tag, contended, evs=None):
+def _backlog_events(rng, n):
+    """n distinct events for one long burst, with some of them submitted a second time while the first submission still waits for
+    the writer (a client that resends, or two clients publishing the same event): such a resubmission is refused, or accepted
+    again when the event is ephemeral; either way the oracle counts announcements per id against acceptances per id"""
+    evs, seen = [], set()
+    for e in _announce_events(rng, n):
+        # the id generator favours a few boundary patterns: in hundreds of events two would share an id with different contents,
+        # which no client can produce (the id is the hash of the contents)
+        while e["id"] in seen:
+            e["id"] = rng.randbytes(32).hex()
+        seen.add(e["id"])
+        evs.append(e)
+    for _ in range(rng.randint(1, 4)):
+        k = rng.randrange(len(evs))
+        evs.insert(rng.randint(k + 1, len(evs)), evs[k])
+    return evs
+
+
+def announce_case_kv(report, drv, rng, tag, contended, evs=None, backlog=None):
     """the real writer thread; `contended` = another writer (a second worker process's writer thread, a bulk load) is inside
-    a write transaction while the event is submitted"""
+    a write transaction while the event is submitted.  `backlog` = the number of events accepted while it is (default: a
+    burst of two to five)"""
     import threading
     from lib.hist import KVStore
 
@@ -424,6 +448,8 @@ def announce_case_kv(report, drv, rng, tag, contended, evs=None):
         threading.Thread.start(st.writer)              # the real thread (KVStore leaves it unstarted)
         submitted = []
         # while the lock is held elsewhere the submissions pile up in the writer's queue: a burst of two to five
+        if evs is None and backlog:
+            evs = _backlog_events(rng, backlog)
         evs = evs or _announce_events(rng, rng.randint(2, 5) if contended else rng.randint(1, 3))
         have, release = threading.Event(), threading.Event()
 
@@ -455,6 +481,9 @@ def announce_case_kv(report, drv, rng, tag, contended, evs=None):
         st.run(_yield(5))
         schedule = ("another-writer-holds-the-lock:%s" if contended else "writer-finishes-between-submissions:%s") % tag
         _judge_announcements(report, "kv", schedule, submitted, link)
+        if len(submitted) > 100:
+            report.count("announce_cases_kv_long_backlog")
+            report.count("announce_kv_long_backlog_events", len(submitted))
         if contended:
             steps = ["submit"] * len(submitted) + ["writerTake", "writerCommit"] * len(submitted)
         else:
@@ -482,7 +511,9 @@ def run(report, tier, seed):
         "(disconnect mid-id); storage glue on both backends: sequences of accepted, ephemeral and resubmitted events through the "
         "real add_event with the notifier replaced by a probe that, at the instant an id is announced, asks an independent reader "
         "of the shared database whether the event can be loaded (SQLite file: a second connection; LMDB: a read transaction, "
-        "with the real writer thread, also while another writer holds the write lock); "
+        "with the real writer thread, also while another writer holds the write lock: bursts of 2-5 events, and backlogs of 150 "
+        "and 300 events (thorough: up to 1500) with a few resubmissions, accepted while the lock is held and written when it is "
+        "released); "
         "non-trivial = some chunk is not a multiple of 32 bytes / more than one origin")
     report.assumptions += [
         "asyncio.StreamReader buffering (feed_data/readexactly) is the transport abstraction; TCP itself is trusted",
@@ -545,6 +576,14 @@ def run(report, tier, seed):
             announce_case_sql(report, drv, rng, k)
             announce_case_kv(report, drv, rng, k, contended=True)
             announce_case_kv(report, drv, rng, k, contended=False)
+        # long backlogs: the write lock of LMDB is shared by all worker processes (and by the collector, a reindex, a bulk load),
+        # and a busy worker accepts events much faster than commits complete, so hundreds of writes can be waiting in one
+        # worker's queue when its writer thread gets the lock.  Whatever the writer does to catch up (one transaction per event,
+        # several events per transaction, ...) every written event is announced once, after its commit, in commit order.
+        # The sizes are not tuned to anything in the code: they are spread over the orders of magnitude at which batching
+        # thresholds are customarily set (32, 64, 100, 128, 256 / 512, 1000, 1024), each one well past the previous size.
+        for n in ([150, 300] if tier == "quick" else [150, 300, 700, 1500, 150, 300, 700]):
+            announce_case_kv(report, drv, rng, "backlog-%d" % n, contended=True, backlog=n)
     finally:
         drv.close()
 
